@@ -120,14 +120,23 @@ type c18Config struct {
 var c18Configs = []c18Config{
 	{"nil-extension", func() *gtfs.ParseRealtimeOptions { return &gtfs.ParseRealtimeOptions{Timezone: zoneNY} }},
 	{"no-op-extension", func() *gtfs.ParseRealtimeOptions {
-		return &gtfs.ParseRealtimeOptions{Extension: proxyExt{extensions.NoExtension()}}
+		return &gtfs.ParseRealtimeOptions{Extension: wrapExt(extensions.NoExtension())}
 	}},
 	{"nycttrips", func() *gtfs.ParseRealtimeOptions {
-		return &gtfs.ParseRealtimeOptions{Timezone: zoneNY, Extension: proxyExt{nycttrips.Extension(nycttrips.ExtensionOpts{FilterStaleUnassignedTrips: true})}}
+		return &gtfs.ParseRealtimeOptions{Timezone: zoneNY, Extension: wrapExt(nycttrips.Extension(nycttrips.ExtensionOpts{FilterStaleUnassignedTrips: true}))}
 	}},
 	{"nyctalerts", func() *gtfs.ParseRealtimeOptions {
-		return &gtfs.ParseRealtimeOptions{Extension: proxyExt{nyctalerts.Extension(nyctalerts.ExtensionOpts{ElevatorAlertsDeduplicationPolicy: nyctalerts.DeduplicateInComplex, AddNyctMetadata: true, SkipTimetabledNoServiceAlerts: true})}}
+		return &gtfs.ParseRealtimeOptions{Extension: wrapExt(nyctalerts.Extension(nyctalerts.ExtensionOpts{ElevatorAlertsDeduplicationPolicy: nyctalerts.DeduplicateInComplex, AddNyctMetadata: true, SkipTimetabledNoServiceAlerts: true}))}
 	}},
+	// the bundled extensions handed to the parser as they are (no proxy: scheduling points only at
+	// the per-entity hooks), with the zone left to the default
+	{"raw-nycttrips-default-zone", func() *gtfs.ParseRealtimeOptions {
+		return &gtfs.ParseRealtimeOptions{Extension: nycttrips.Extension(nycttrips.ExtensionOpts{})}
+	}},
+	{"raw-nyctalerts-no-dedup", func() *gtfs.ParseRealtimeOptions {
+		return &gtfs.ParseRealtimeOptions{Extension: nyctalerts.Extension(nyctalerts.ExtensionOpts{ElevatorAlertsDeduplicationPolicy: nyctalerts.NoDeduplication})}
+	}},
+	{"nil-extension-default-zone", func() *gtfs.ParseRealtimeOptions { return &gtfs.ParseRealtimeOptions{} }},
 }
 
 type c18Call struct {
@@ -331,19 +340,19 @@ func init() {
 	register(&Check{
 		ID:    "C18",
 		Level: "model_checking",
-		Rule: "threads = parse calls (each followed by hashing and walking its own result) sharing input buffers and one options value; scenarios: realtime||realtime on the same buffer and on two different feeds (elevator feeds that share groups for nyctalerts), static||static on the same archive (known and never-seen unknown agency zone), static||realtime, journal+CSV export||journal+CSV export, for 4 configurations (nil Extension, no-op, nycttrips, nyctalerts); thorough adds 3-thread scenarios; every interleaving at the scheduling points (extension method calls + per-entity / per-file hooks) with <= 2 preemptions (thorough <= 3), each executed under -race with a hand-off the detector cannot see; " +
+		Rule: "threads = parse calls (each followed by hashing and walking its own result) sharing input buffers and one options value; scenarios: realtime||realtime on the same buffer and on two different feeds (elevator feeds that share groups for nyctalerts), static||static on the same archive (known and never-seen unknown agency zone), static||realtime, journal+CSV export||journal+CSV export, for 7 configurations (nil Extension with and without Timezone, no-op, nycttrips and nyctalerts behind a yielding proxy, nycttrips and nyctalerts unwrapped with the default zone); thorough adds 3-thread scenarios; every interleaving at the scheduling points (extension method calls + per-entity / per-file hooks) with <= 2 preemptions (thorough <= 4; <= 2 for three threads), each executed under -race with a hand-off the detector cannot see; " +
 			"non-trivial = distinct schedules in which both threads ran between points; oracle = zero race reports (runtime.RaceErrors per schedule) and every call's dump equal to its solo dump",
 		Assumptions: []string{"the Go race detector is trusted (no false positives; bounded shadow history)", "synchronisation inside the standard library / protobuf (sync.Pool, sync.Once) creates real happens-before edges that can hide a conflict in one schedule; the explored preemptions move the calls relative to those edges", "exhaustive over schedules at the listed points within the preemption bound, and over memory for the executed paths; not over inputs"},
 		Scenarios: func(tier string) []*Scenario {
 			k := 2
 			if tier == "thorough" {
-				k = 3
+				k = 4
 			}
 			var s []*Scenario
 			for _, cfg := range c18Configs {
 				cfg := cfg
 				a, b := 3, 4
-				if cfg.name == "nyctalerts" {
+				if strings.Contains(cfg.name, "nyctalerts") {
 					a, b = 1, 2
 				}
 				s = append(s,
